@@ -16,7 +16,7 @@ FORMULA_ROWS = {
     "Drain::drop": ["C02", "C03"], "Splice::drop": ["C02", "C03", "C11", "C05"],
     "slot-pointer": ["C01", "C13", "C05"], "view:": ["C12", "C05"], "set_len": ["C12"], "iter-range": ["C01", "C14"],
     "reserve": ["C10"], "reserve_exact": ["C10"], "shrink_to_fit": ["C10", "C05"], "shrink_to": ["C10", "C05"],
-    "clone": ["C08", "C05"], "TempValue::": ["C01", "C03", "C06"], "swap_unchecked": ["C13"], "bytes-ptr-agree": ["C13"], "into_range": ["C02"], "heap-expand": ["C10"], "expand_exact": ["C10"], "build_with_size": ["C10"],
+    "clone": ["C08", "C05"], "TempValue::": ["C01", "C03", "C06"], "swap_unchecked": ["C13"], "vec-drop": ["C03", "C05"], "element-handle": ["C13", "C01"], "clone_into": ["C09", "C08"], "lazy-noop": ["C09"], "bytes-ptr-agree": ["C13"], "into_range": ["C02"], "heap-expand": ["C10"], "expand_exact": ["C10"], "build_with_size": ["C10"],
 }
 
 
@@ -134,7 +134,7 @@ PROPERTIES = {
     "C07": {"rules": ["R-LENLOWER", "R-FORMULA"], "not_decided": ""},
     "C08": {"rules": ["R-FORMULA", "R-ORDER", "R-EXPANDGUARD", "R-PROVENANCE"],
             "not_decided": "each source element cloned exactly once beyond the clone function's loop shape; independence beyond separate storage"},
-    "C09": {"rules": ["R-FORGET"], "not_decided": ""},
+    "C09": {"rules": ["R-FORGET", "R-FORMULA"], "not_decided": ""},
     "C10": {"rules": ["R-ARITH", "R-FORMULA"], "not_decided": "the count of reallocations over 2^16 pushes (only its structural cause, the doubling term, is checked)"},
     "C11": {"rules": ["R-EXPANDGUARD", "R-FORMULA", "R-ARITH", "R-ALLOCCONFINED", "R-STACKCAP"],
             "not_decided": "behavioural equality with the heap backend beyond 'same generic code, backend reached only through Mem'"},
